@@ -20,6 +20,7 @@ type c05Scenario struct {
 	DelayMs    int
 	StreamErrs []int // message indices (per relay op counter) at which a stream op fails
 	FaultUntil time.Duration
+	Idle       time.Duration // both writers pause this long half-way (keepalive pings flow meanwhile)
 }
 
 type c05Result struct {
@@ -94,7 +95,10 @@ func runC05(sc *c05Scenario) *c05Result {
 		go func() { // writer
 			defer wg.Done()
 			off := 0
-			for _, n := range sc.Writes[d] {
+			for i, n := range sc.Writes[d] {
+				if sc.Idle > 0 && i == len(sc.Writes[d])/2 {
+					time.Sleep(sc.Idle)
+				}
 				if _, err := ends[d].Conn.Write(all[off : off+n]); err != nil {
 					mu.Lock()
 					res.WriteErr[d] = err.Error()
@@ -212,6 +216,12 @@ func TestC05(t *testing.T) {
 		}
 		scs = append(scs, sc)
 	}
+	// idle periods longer than the keepalive interval (server pings after 5 s, client after 7 s) in
+	// the middle of a transfer, without relay faults
+	for i, idle := range []time.Duration{6500 * time.Millisecond, 9 * time.Second, 16 * time.Second}[:pick(2, 3)] {
+		scs = append(scs, &c05Scenario{Name: fmt.Sprintf("idle-%v", idle), Seed: 900 + i,
+			Writes: [2][]int{{100, 5000, 70, 40000}, {300, 17, 65535, 9}}, ReadBuf: [2]int{32768, 4096}, Idle: idle})
+	}
 	var mu sync.Mutex
 	idx := 0
 	t.Run("stack", func(t *testing.T) {
@@ -230,8 +240,8 @@ func TestC05(t *testing.T) {
 					var res *c05Result
 					p, msg := safely(func() { res = runC05(sc) })
 					mu.Lock()
-					faulty := sc.DropPct > 0 || sc.DelayMs > 0 || len(sc.StreamErrs) > 0
-					r.Case(sc.Name, faulty, fmt.Sprintf("drop=%v/delay=%v/stream-errs=%v", sc.DropPct > 0, sc.DelayMs > 0, len(sc.StreamErrs) > 0))
+					faulty := sc.DropPct > 0 || sc.DelayMs > 0 || len(sc.StreamErrs) > 0 || sc.Idle > 0
+					r.Case(sc.Name, faulty, fmt.Sprintf("drop=%v/delay=%v/stream-errs=%v/idle=%v", sc.DropPct > 0, sc.DelayMs > 0, len(sc.StreamErrs) > 0, sc.Idle > 0))
 					switch {
 					case p:
 						r.Violate("C05/panic", msg, sc)
